@@ -1275,7 +1275,8 @@ Section Step.
                        match t with
                        | None => ret (inr tt)
                        | Some TColon => discard_remaining_tokens ;;; ret (inl tt)
-                       | Some TElse => statement_or_goto_line_number (evaluate_statement f (S d)) ;;; ret (inr tt)
+                       | Some TElse => statement_or_goto_line_number (evaluate_statement f (S d)) ;;;
+                                        e <- peek_is TElse ;; (if e then discard_remaining_tokens else ret tt) ;;; ret (inr tt)
                        | Some _ => ret (inl tt)
                        end) tt) (at_idx s (S j) (S r1) o)
               | Err er l => (Err er l, at_idx s i1 r1 o)
@@ -1407,7 +1408,8 @@ Section Scan.
     match t with
     | None => ret (inr tt)
     | Some TColon => discard_remaining_tokens ;;; ret (inl tt)
-    | Some TElse => statement_or_goto_line_number rec ;;; ret (inr tt)
+    | Some TElse => statement_or_goto_line_number rec ;;;
+                           e <- peek_is TElse ;; (if e then discard_remaining_tokens else ret tt) ;;; ret (inr tt)
     | Some _ => ret (inl tt)
     end.
 
@@ -1444,7 +1446,8 @@ Section Scan.
                        match t0 with
                        | None => ret (inr tt)
                        | Some TColon => discard_remaining_tokens ;;; ret (inl tt)
-                       | Some TElse => statement_or_goto_line_number rec ;;; ret (inr tt)
+                       | Some TElse => statement_or_goto_line_number rec ;;;
+                           e <- peek_is TElse ;; (if e then discard_remaining_tokens else ret tt) ;;; ret (inr tt)
                        | Some _ => ret (inl tt)
                        end) (at_idx s j r o) = (Ok (inl tt), at_idx s (S j) (S r) o)).
       { erewrite bind_ok by (apply (next_some s toks Htoks); exact Hc).
@@ -1457,14 +1460,18 @@ Section Scan.
   Lemma scan_to_else more o :
     forall ts j r n, forallb plain_tok ts = true -> skipn j toks = ts ++ TElse :: more -> length ts + 1 <= n ->
       exists r', repeat_m n skip_body tt (at_idx s j r o)
-                 = (statement_or_goto_line_number rec ;;; ret tt) (at_idx s (S (j + length ts)) r' o).
+                 = ((statement_or_goto_line_number rec ;;;
+                     e <- peek_is TElse ;; if e then discard_remaining_tokens else ret tt) ;;; ret tt)
+                    (at_idx s (S (j + length ts)) r' o).
   Proof.
     induction ts as [|t ts IH]; intros j r n Hp Hsk Hn.
     - cbn [app] in Hsk. destruct (skipn_cons_nth _ _ _ _ Hsk) as [Hc _].
       destruct n as [|n]; [cbn [length] in Hn; lia|]. rewrite repeat_m_S. unfold skip_body at 1.
       rewrite bind_assoc. erewrite bind_ok by (apply (next_some s toks Htoks); exact Hc). cbv iota beta.
-      rewrite bind_assoc. cbn [length]. rewrite Nat.add_0_r. exists (S r).
-      unfold bind. destruct (statement_or_goto_line_number rec (at_idx s (S j) (S r) o)) as [[[]|e l|pp| |] s1]; reflexivity.
+      cbn [length]. rewrite Nat.add_0_r. exists (S r).
+      unfold bind. destruct (statement_or_goto_line_number rec (at_idx s (S j) (S r) o)) as [[[]|e l|pp| |] s1]; try reflexivity.
+      destruct (peek_is TElse s1) as [[[|]|e l|pp| |] s2]; try reflexivity.
+      destruct (discard_remaining_tokens s2) as [[[]|e l|pp| |] s3]; reflexivity.
     - cbn [app] in Hsk. cbn [forallb] in Hp. apply andb_true_iff in Hp. destruct Hp as [Hp1 Hp2].
       destruct (skipn_cons_nth _ _ _ _ Hsk) as [Hc Hsk'].
       destruct n as [|n]; [cbn [length] in Hn; lia|]. rewrite repeat_m_S. unfold skip_body at 1.
@@ -1472,7 +1479,8 @@ Section Scan.
                        match t0 with
                        | None => ret (inr tt)
                        | Some TColon => discard_remaining_tokens ;;; ret (inl tt)
-                       | Some TElse => statement_or_goto_line_number rec ;;; ret (inr tt)
+                       | Some TElse => statement_or_goto_line_number rec ;;;
+                           e <- peek_is TElse ;; (if e then discard_remaining_tokens else ret tt) ;;; ret (inr tt)
                        | Some _ => ret (inl tt)
                        end) (at_idx s j r o) = (Ok (inl tt), at_idx s (S j) (S r) o)).
       { erewrite bind_ok by (apply (next_some s toks Htoks); exact Hc).
@@ -1978,14 +1986,14 @@ Section StepIf.
   Qed.
 
   Lemma step_if_else c c' tc A ta B tb rest i :
-    skipn i toks = (TIf :: tc ++ TThen :: ta ++ TElse :: tb) ++ rest ->
+    skipn i toks = (TIf :: tc ++ TThen :: ta ++ TElse :: tb) ++ rest -> (rest = [] \/ exists tr, rest = TColon :: tr) ->
     tr c = Some c' -> Renders 0 c' tc -> S d + pdepth c' < max_nesting -> xsize c <= F ->
     forallb plain_tok ta = true ->
     arm_steps (S li, 0) A (S (S i + length tc)) ta ->
     arm_steps after B (S (S (S i + length tc)) + length ta) tb ->
     steps_as F p s toks L d li after st (SIf c A (Some B)) i (TIf :: tc ++ TThen :: ta ++ TElse :: tb).
   Proof.
-    intros Hsk Htr Hren Hdp HF Hplain (fa & HA) (fb & HB).
+    intros Hsk Hrest Htr Hren Hdp HF Hplain (fa & HA) (fb & HB).
     cbn [app] in Hsk. rewrite <- !app_assoc in Hsk. cbn [app] in Hsk. rewrite <- app_assoc in Hsk. cbn [app] in Hsk.
     destruct (skipn_cons_nth _ _ _ _ Hsk) as [H0 Hs1].
     destruct (expr_sem_at s toks Htoks c' tc Hren (S d) (S i) (TThen :: ta ++ TElse :: tb ++ rest) Hs1 eq_refl Hdp) as (fe & Hfe).
@@ -1993,6 +2001,8 @@ Section StepIf.
     set (j := S i + length tc) in *.
     destruct (skipn_cons_nth _ _ _ _ Hs2) as [H2 Hs3].
     pose proof (skipn_app_len _ _ _ _ Hs3) as Hs4.
+    assert (Hsk_rest : skipn (S (S j + length ta) + length tb) toks = rest).
+    { destruct (skipn_cons_nth _ _ _ _ Hs4) as [_ Hs5]. exact (skipn_app_len _ _ _ _ Hs5). }
     assert (Hsum : S (S j + length ta) + length tb = i + length (TIf :: tc ++ TThen :: ta ++ TElse :: tb)).
     { cbn [length]. rewrite app_length. cbn [length]. rewrite app_length. cbn [length]. unfold j. lia. }
     exists (S (S (fe + fa + fb + length ta + 3))). intros fuel Hf r o. destruct fuel as [|f]; [lia|].
@@ -2035,11 +2045,11 @@ Section StepIf.
     - (* the scan stops at the ELSE: the ELSE arm *)
       destruct (scan_to_else s toks Htoks (evaluate_statement f (S d)) (tb ++ rest) o ta (S j) (S r1) f Hplain Hs3 ltac:(lia))
         as (r' & Hscan).
-      rewrite Hscan, bind_ret_tt.
+      rewrite Hscan, bind_ret_tt. fold else_probe.
       replace (match B with ALine n => jump p n (line_no p li) st | AStmt s2 => exec F p s2 after li st end)
         with (arm_out B after) by (destruct B; reflexivity).
       apply (outcome_shift _ (S (S j + length ta)) tb); [exact Hsum|].
-      apply (HB f ltac:(lia)).
+      apply (after_nested _ (S (S j + length ta)) tb _ _ _ rest Hsk_rest Hrest). apply (HB f ltac:(lia)).
   Qed.
 End StepIf.
 
@@ -2391,7 +2401,7 @@ Section Program.
       pose proof (skipn_app_len _ _ _ _ Hs3) as Hs4.
       destruct (skipn_cons_nth _ _ _ _ Hs4) as [_ Hs5].
       apply (step_if_else F p s toks Htoks Htr Hw (Inv_lines s HI) (calls_land st s Hcr) (loops_land st s Hlr)
-               (pcloc (st_toks s)) d Hd li after st Hrel c c' tc A ta (ALine n) [TNumber x] rest i Hsk H1 H2 H3 H4
+               (pcloc (st_toks s)) d Hd li after st Hrel c c' tc A ta (ALine n) [TNumber x] rest i Hsk Hrest H1 H2 H3 H4
                (TRen_plain _ _ _ _ _ H6)).
       + apply (tren_steps s toks li (S li, 0) st d A ta (TElse :: TNumber x :: rest)); assumption.
       + apply (arm_line F p s toks Htoks Htr Hw (pcloc (st_toks s)) d li st Hrel (Inv_jump s HI) after n x _ rest); assumption.
@@ -2405,7 +2415,7 @@ Section Program.
       destruct (skipn_cons_nth _ _ _ _ Hs4) as [_ Hs5].
       destruct (SRen_head _ _ _ _ _ H7) as (t0 & tb' & Etb & Hnum).
       apply (step_if_else F p s toks Htoks Htr Hw (Inv_lines s HI) (calls_land st s Hcr) (loops_land st s Hlr)
-               (pcloc (st_toks s)) d Hd li after st Hrel c c' tc A ta (AStmt B) tb rest i Hsk H1 H2 H3 H4
+               (pcloc (st_toks s)) d Hd li after st Hrel c c' tc A ta (AStmt B) tb rest i Hsk Hrest H1 H2 H3 H4
                (TRen_plain _ _ _ _ _ H6)).
       + apply (tren_steps s toks li (S li, 0) st d A ta (TElse :: tb ++ rest)); assumption.
       + apply (arm_stmt F p s toks Htoks (pcloc (st_toks s)) d li st after B _ tb t0 (tb' ++ rest)).
